@@ -132,7 +132,16 @@ def run(ctx, model_ok):
             elif dz is None:
                 y, m, d = rng.randint(1, 9999), rng.randint(1, 12), rng.randint(1, 28)
                 h, mi = rng.randint(0, 23), rng.randint(0, 59)
-                if rng.random() < 0.5:
+                kat = rng.random()
+                if kat < 0.3:
+                    # the clock time comes from a variable and carries a zone of its own ('meeting = 10:30 EST'): the date-time is
+                    # that instant — restricted to times whose UTC time of day falls on the same day (see ASSUMPTIONS)
+                    z = rng.choice(named)
+                    if 0 <= h * 60 + mi - z[1] < 1440:
+                        how = rng.choice(["direct", "converted"])
+                        first = f"m = {h}:{mi:02d} {z[0]}" if how == "direct" else f"m = {(h * 60 + mi - z[1]) // 60}:{(h * 60 + mi - z[1]) % 60:02d} to {z[0]}"
+                        cases.append({"text": f"{first}\n{d} {MON[m-1].lower()} {y} at m as unix", "kind": "at", "ymd": (y, m, d), "hm": (h, mi), "off": z[1], "oneline": False})
+                elif kat < 0.6:
                     cases.append({"text": f"x = {d} {MON[m-1].lower()} {y} at {h}:{mi:02d}\nx as unix", "kind": "at", "ymd": (y, m, d), "hm": (h, mi), "oneline": False})
                 else:
                     cases.append({"text": f"{d} {MON[m-1].lower()} {y} at {h}:{mi:02d} as unix", "kind": "at", "ymd": (y, m, d), "hm": (h, mi), "oneline": True})
@@ -225,7 +234,7 @@ def run(ctx, model_ok):
             elif c["kind"] == "at":
                 y, m, d = c["ymd"]
                 h, mi = c["hm"]
-                want = (datetime.date(y, m, d) - datetime.date(1970, 1, 1)).days * 86400 + h * 3600 + mi * 60
+                want = (datetime.date(y, m, d) - datetime.date(1970, 1, 1)).days * 86400 + h * 3600 + mi * 60 - 60 * c.get("off", 0)
                 ctx.seen((dz, c["text"]), True)
                 vv = val(ls[0]) if c["oneline"] else (val(ls[1]) if len(ls) > 1 else None)
                 if vv is None or vv.get("t") != "N" or O.f64(vv["v"]) != float(want):
